@@ -70,6 +70,13 @@ func aliasingConfig(seed uint64, i int, root string) (*gen.Case, error) {
 		&gen.Content{Type: "symlink", Src: "/nonexistent-verif/alias", Dst: "/usr/lib/" + s.Name + "/alias-link2", FI: &gen.FI{Owner: "root", Group: "adm", MTime: 1222222223}},
 		&gen.Content{Type: "ghost", Dst: "/var/log/" + s.Name + "-2.log", FI: &gen.FI{Owner: "syslog", Group: "adm", MTime: 1222222224}},
 		&gen.Content{Type: "config", Src: filepath.Join(root, host.Rel), Dst: "/etc/" + s.Name + "/alias.conf", FI: &gen.FI{Owner: "root", Group: "adm"}},
+		// nothing left to default: owner, group, mode and mtime are all declared
+		&gen.Content{Type: "dir", Dst: "/var/lib/" + s.Name + "/alias-dir3", FI: &gen.FI{Owner: "daemon", Group: "daemon", Mode: 0o750, MTime: 1222222225}},
+		// destinations in the directories a usr-merged distribution symlinks
+		&gen.Content{Src: filepath.Join(root, host.Rel), Dst: "/bin/" + s.Name + "-tool"},
+		&gen.Content{Src: filepath.Join(root, host.Rel), Dst: "/sbin/" + s.Name + "-admin"},
+		&gen.Content{Src: filepath.Join(root, host.Rel), Dst: "/lib64/" + s.Name + "/lib.so"},
+		&gen.Content{Type: "symlink", Src: "/nonexistent-verif/x", Dst: "/lib/" + s.Name + "-link"},
 	)
 	// per-format umasks: a mode frozen by one format would show up in another
 	for k, f := range formats {
